@@ -1,5 +1,7 @@
 """C19 — load stepping: the warm start is the exact linear predictor, scaling is transparent, the objective carries the
 new parameters (PX on the real drivers + JX on the real Objective's jitted closures + CrossHair for the tuple leaf)."""
+import contextlib
+import io
 import os
 import subprocess
 import sys
@@ -12,8 +14,8 @@ import jax.numpy as jnp
 
 from ..core import obligation, REPO, VERIF
 from .. import px, jx, sym
-from ..px import SymReal, SymBool, NP
-from ..sym import Le, Lt, Eq, Holds, v_mul, v_add, v_sub, v_lt, v_le, v_sum
+from ..px import SymBool, NP
+from ..sym import Lt, Eq, Holds, v_mul, v_lt
 from ..jxh import Case
 from . import c01
 
@@ -171,7 +173,7 @@ def U(x):
 
 
 # ------------------------------------------------------------------------------------------ O1: warm start
-N, M0, M2 = 2, 2, 1
+N, M0, M2 = 2, 2, 2      # equal slot sizes: a slot mix-up gives a wrong VALUE (solver-visible), not a shape error
 
 
 def energy_quadratic(x, p):
@@ -186,7 +188,7 @@ def energy_cubic(x, p):
     a, B0, B2, c = p[3]
     A = jnp.array([[a[0], a[1]], [a[1], a[2]]])
     return (0.5 * x @ (A @ x) + c[0] * (x[0] ** 3 + x[1] ** 3) + c[1] * x[0] ** 2 * x[1]
-            - (1.0 + c[2] * x[1]) * (x @ (B0 @ p[0])) - (x @ B2[:, 0]) * p[2][0] ** 2)
+            - (1.0 + c[2] * x[1]) * (x @ (B0 @ p[0])) - (x @ B2[:, 0]) * p[2][0] ** 2 - (x @ B2[:, 1]) * p[2][1])
 
 
 def oracle(kind, x, p, a, B0, B2, c, q=0.0):
@@ -203,14 +205,14 @@ def oracle(kind, x, p, a, B0, B2, c, q=0.0):
     xb = NP.dot(x, b0)
     g = (NP.dot(A, x) + 3.0 * c[0] * onp.array([x[0] * x[0], x[1] * x[1]], dtype=object)
          + c[1] * onp.array([2.0 * x[0] * x[1], x[0] * x[0]], dtype=object)
-         - (1.0 + c[2] * x[1]) * b0 - (c[2] * xb) * e1 - B2[:, 0] * (p[2][0] * p[2][0]))
+         - (1.0 + c[2] * x[1]) * b0 - (c[2] * xb) * e1 - B2[:, 0] * (p[2][0] * p[2][0]) - B2[:, 1] * p[2][1])
     H = onp.empty((2, 2), dtype=object)
     H[0, 0] = A[0, 0] + 6.0 * c[0] * x[0] + 2.0 * c[1] * x[1]
     H[0, 1] = A[0, 1] + 2.0 * c[1] * x[0] - c[2] * b0[0]
     H[1, 0] = H[0, 1]
     H[1, 1] = A[1, 1] + 6.0 * c[0] * x[1] - 2.0 * c[2] * b0[1]
     dgdp0 = lambda w: -(1.0 + c[2] * x[1]) * NP.dot(B0, w) - (c[2] * NP.dot(x, NP.dot(B0, w))) * e1
-    dgdp2 = lambda w: -B2[:, 0] * (2.0 * p[2][0] * w[0])
+    dgdp2 = lambda w: -B2[:, 0] * (2.0 * p[2][0] * w[0]) - B2[:, 1] * w[1]
     return g, H, {0: dgdp0, 2: dgdp2}
 
 
@@ -282,7 +284,9 @@ def make_ws_harness(index, kind, use_default_index=False):
                 return real_cg(Lop, b, **kw)
             mod.cg = cg_spy
         x_in = x.copy()
-        if use_default_index:
+        if use_default_index == 'jax_safe':
+            dx = mod.warm_start_increment_jax_safe(obj, x, p_new[0])        # the variant used by inverse/NonlinearSolve: bc slot only
+        elif use_default_index:
             dx = mod.warm_start_increment(obj, x, p_new)
         else:
             dx = mod.warm_start_increment(obj, x, p_new, index)
@@ -348,17 +352,17 @@ def o1(h):
     hence H dx = -(dg/dp)(p_new-p_old); on the quadratic family grad f(x_old + dx; p_new) = 0 for every equilibrium x_old;
     indices 1, 3, 4, 5 raise"""
     O = _objmod()
-    h.encoded('optimism.WarmStart:warm_start_increment (real source under PX)', O.Objective.__init__, O.Objective.jacobian_p_vec, O.Objective.jacobian_p2_vec,
+    h.encoded('optimism.WarmStart:warm_start_increment (real source under PX)', 'optimism.WarmStart:warm_start_increment_jax_safe (real source under PX)', O.Objective.__init__, O.Objective.jacobian_p_vec, O.Objective.jacobian_p2_vec,
               O.Objective.hessian_vec, O.Objective.apply_precond, O.param_index_update,
               'jaxprs of Objective.jac_xp_vec / jac_xp2_vec / hess_vec / grad_x (jit closures built by the real Objective.__init__, traced per run)')
-    h.bounds('n=2 unknowns, p0 in R^2, p1 in R^1, p2 in R^1, time scalar: all symbolic, old and new values differ in EVERY slot; '
-             'quadratic family x.A x/2 - x.B0 p0 - x.B2 p2 - x.q (A sym 2x2, B0 2x2, B2 2x1 symbolic; q such that x_old is an equilibrium at p_old) and a cubic family '
-             '(+ c0 (x0^3+x1^3) + c1 x0^2 x1, coupling -(1+c2 x1) x.B0 p0 - x.B2 p2^2); Hessian at the old state SPD; index in 0..5')
+    h.bounds('n=2 unknowns, p0 in R^2, p1 in R^1, p2 in R^2, time scalar: all symbolic, old and new values differ in EVERY slot; '
+             'quadratic family x.A x/2 - x.B0 p0 - x.B2 p2 - x.q (A sym 2x2, B0 2x2, B2 2x2 symbolic; q such that x_old is an equilibrium at p_old) and a cubic family '
+             '(+ c0 (x0^3+x1^3) + c1 x0^2 x1, coupling -(1+c2 x1) x.B0 p0 - x.B2[:,0] p2_0^2 - x.B2[:,1] p2_1); Hessian at the old state SPD; index in 0..5')
     h.assume_note('stub: scipy.sparse.linalg.cg returns dx with L dx = b exactly and exit code 0 (accuracy of scipy cg is outside the claim); LinearOperator = (shape, matvec) record',
                   'stub: SparseCholesky (sksparse absent) replaced by the identity preconditioner on the objective',
                   'hybrid: the objective is the real Objective class; its jitted closures are evaluated through their jaxprs by JX on the proxy arrays (replay: the real jitted closures, real scipy cg)',
                   'oracle: gradient/Hessian/parameter Jacobians of the two families derived by hand in the harness')
-    h.outside('accuracy and termination of scipy cg; energies with transcendental terms; warm_start_increment_jax_safe (C07 path)')
+    h.outside('accuracy and termination of scipy cg; energies with transcendental terms; the `.primal` unwrapping of warm_start_increment_jax_safe under a JAX trace')
     for idx in (0, 2):
         kinds = ('quadratic', 'cubic')
         for kind in kinds:
@@ -366,5 +370,449 @@ def o1(h):
             px.run_px(h, 'ws[index=%d,%s]' % (idx, kind), make_ws_harness(idx, kind), cap=40, div_mode='goal', sqrt_mode='goal', expect_goals=goals)
     px.run_px(h, 'ws[default index,quadratic]', make_ws_harness(0, 'quadratic', use_default_index=True), cap=40, div_mode='goal', sqrt_mode='goal',
               expect_goals=WS_GOALS)
+    for kind in ('quadratic', 'cubic'):
+        goals = WS_GOALS + (['lands_on_the_new_solution', 'old_state_is_an_equilibrium'] if kind == 'quadratic' else [])
+        px.run_px(h, 'ws_jax_safe[%s]' % kind, make_ws_harness(0, kind, use_default_index='jax_safe'), cap=40, div_mode='goal', sqrt_mode='goal', expect_goals=goals)
     for idx in (1, 3, 4, 5):
         px.run_px(h, 'ws_invalid[index=%d]' % idx, make_ws_bad_index_harness(idx), cap=20, expect_goals=['raises', 'no_linear_solve_attempted'])
+
+
+# ------------------------------------------------------------------------------------------ O2: the four drivers
+class StepObjective(c01.DriverObjective):
+    """objective seen by a load-step driver: opaque parameter objects, symbolic diagonal scaling, a trace of every
+    collaborator call with the parameters installed at that moment"""
+
+    def __init__(self, ex, n, scaled=True):
+        if scaled:
+            c01.DriverObjective.__init__(self, ex, n)
+        else:
+            self.ex, self.p, self.trace = ex, 'P_OLD', []
+        self.n = n
+        self.lam = onp.zeros(1)
+        self.kappa = onp.ones(1)
+
+    def update_precond(self, x):
+        self.trace.append(('update_precond', self.p, onp.array(x, copy=True)))
+
+    def reset_kappa(self):
+        self.trace.append(('reset_kappa', self.p, None))
+
+    # the pieces AlSolver.solve_sub_step / augmented_lagrange_solve read after the sub-solver returned: a converged state
+    def constraint(self, x):
+        return onp.zeros(1)
+
+    def ncp(self, x):
+        return onp.zeros(1)
+
+    def gradient(self, x):
+        return onp.zeros(self.n)
+
+    def total_residual(self, x):
+        return onp.zeros(self.n + 1)
+
+
+DRIVERS = {
+    'nonlinear_equation_solve': ('optimism/EquationSolver.py', 'nonlinear_equation_solve'),
+    'spg_solve': ('optimism/TrustRegionSPG.py', 'solve'),
+    'al_solve': ('optimism/AlSolver.py', 'augmented_lagrange_solve'),
+    'bc_solve': ('optimism/BoundConstrainedSolver.py', 'bound_constrained_solve'),
+}
+
+
+def make_step_driver_harness(kind, useWarmStart, updatePrecond, precondBeforeWarm=True, n=2):
+    rel, fname = DRIVERS[kind]
+
+    def fn(ex):
+        mod = px.load_module(rel)
+        scaled = kind != 'al_solve'
+        obj = StepObjective(ex, n, scaled=scaled)
+        pNew = ('P_NEW',)
+        dx = ex.vec('dxWarm', n)
+        xs = ex.vec('xSolver', n)
+        x0 = ex.vec('x0', n)
+        flagv = bool(ex.bool('solverFlag'))
+        x_arg = onp.array(x0, copy=True)
+        seen = {}
+        cb = lambda *a, **k: seen.setdefault('callback_calls', []).append((a, obj.p))
+        scb = lambda *a, **k: seen.setdefault('sub_callback_calls', []).append((tuple(onp.array(v, copy=True) if isinstance(v, onp.ndarray) else v for v in a), obj.p))
+
+        class WS:
+            @staticmethod
+            def warm_start_increment(objective, x, p, *a, **k):
+                seen.setdefault('ws_calls', []).append(1)
+                seen['ws_obj'] = objective
+                seen['ws_p_at_call'] = objective.p
+                seen['ws_x'] = onp.array(x, copy=True)
+                seen['ws_pnew'] = p
+                seen['ws_extra'] = (a, k)
+                seen['ws_trace_len'] = len(objective.trace)
+                return dx
+        mod.WarmStart = WS
+
+        def entered(objective, xstart):
+            seen.setdefault('solver_calls', []).append(1)
+            seen['solver_obj'] = objective
+            seen['p_at_solver_entry'] = objective.p
+            seen['xstart'] = onp.array(xstart, copy=True)
+            seen['trace_len_at_solver'] = len(objective.trace)
+
+        if kind == 'nonlinear_equation_solve':
+            def solver(objective, xstart, settings, callback=None, **kw):
+                entered(objective, xstart)
+                seen['solver_settings'], seen['solver_callback'] = settings, callback
+                return xs, flagv
+            xr, fl = mod.nonlinear_equation_solve(obj, x_arg, pNew, 'SETTINGS', solver_algorithm=solver, callback=cb,
+                                                  useWarmStart=useWarmStart, updatePrecond=updatePrecond)
+        elif kind == 'spg_solve':
+            lo, hi = ex.vec('lower', n), ex.vec('upper', n)
+
+            def solver(objective, xstart, bounds, settings, callback=None, **kw):
+                entered(objective, xstart)
+                seen['solver_settings'], seen['solver_callback'], seen['bounds'] = settings, callback, bounds
+                return xs, flagv
+            mod.bound_constrained_trust_region_minimize = solver
+            xr, fl = mod.solve(obj, x_arg, pNew, lo, hi, 'SETTINGS', callback=cb, useWarmStart=useWarmStart, updatePrecond=updatePrecond)
+        elif kind == 'al_solve':
+            from optimism import EquationSolver as ES
+            sub = ES.get_settings()
+
+            def solver(objective, xstart, settings, callback=None, **kw):
+                entered(objective, xstart)
+                seen['solver_settings'], seen['solver_callback'] = settings, callback
+                return xs, flagv
+            als = mod.get_settings(max_al_iters=1, use_second_order_update=False, use_newton_only=False)
+            xr = mod.augmented_lagrange_solve(obj, x_arg, pNew, als, sub, callback=cb, sub_problem_callback=scb, sub_problem_solver=solver,
+                                              useWarmStart=useWarmStart, updatePrecond=updatePrecond, updatePrecondBeforeWarmStart=precondBeforeWarm)
+            fl = flagv
+        else:
+            class AL:
+                @staticmethod
+                def augmented_lagrange_solve(objective, xstart, p, alSettings, subSettings, **kw):
+                    entered(objective, xstart)
+                    seen['al_p'], seen['al_settings'], seen['al_kw'] = p, (alSettings, subSettings), dict(kw)
+                    return xs
+            mod.AlSolver = AL
+            solver = object()
+            xr = mod.bound_constrained_solve(obj, x_arg, pNew, 'AL_SETTINGS', 'SUB_SETTINGS', callback=cb, sub_problem_callback=scb,
+                                             useWarmStart=useWarmStart, updatePrecond=updatePrecond, sub_problem_solver=solver)
+            fl = flagv
+        # ---------------- goals
+        sc = obj.scaling if scaled else 1.0
+        isc = obj.invScaling if scaled else 1.0
+        start0 = sc * x0
+        ex.goal('solver_called_exactly_once_on_this_objective', Holds(len(seen.get('solver_calls', [])) == 1 and seen.get('solver_obj') is obj))
+        ex.goal('new_parameters_installed_before_solve', Holds(seen.get('p_at_solver_entry') is pNew))
+        ex.goal('objective_carries_new_parameters_after', Holds(obj.p is pNew))
+        if kind in ('nonlinear_equation_solve', 'spg_solve'):
+            ex.goal('flag_is_the_solvers', Holds(fl is flagv))
+            ex.goal('settings_and_callback_forwarded', Holds(seen.get('solver_settings') == 'SETTINGS' and seen.get('solver_callback') is cb))
+        ex.goal('result_is_unscaled_solver_output', Eq(U(xr), U(isc * xs)))
+        if useWarmStart:
+            ex.goal('warm_start_called_once_with_this_objective', Holds(len(seen.get('ws_calls', [])) == 1 and seen.get('ws_obj') is obj))
+            ex.goal('warm_start_sees_old_parameters', Holds(seen.get('ws_p_at_call') == 'P_OLD' and seen.get('ws_pnew') is pNew))
+            ex.goal('warm_start_in_the_bc_slot', Holds(seen.get('ws_extra') in (((), {}), ((0,), {}), ((), {'index': 0}))))
+            ex.goal('warm_start_from_scaled_start', Eq(U(seen['ws_x']), U(start0)))
+            start = start0 + dx
+        else:
+            ex.goal('no_warm_start', Holds(not seen.get('ws_calls')))
+            start = start0
+        ex.goal('solver_starts_from_scaled_start_plus_increment', Eq(U(seen['xstart']), U(start)))
+        # preconditioner refreshes: [before the warm start: old parameters, scaled start] then [new parameters, solver start]
+        ups = [t for t in obj.trace if t[0] == 'update_precond']
+        want = []
+        first = precondBeforeWarm if kind == 'al_solve' else updatePrecond
+        if useWarmStart and first:
+            want.append(('P_OLD', start0))
+        if updatePrecond:
+            want.append((pNew, start))
+        ex.goal('preconditioner_refresh_count', Holds(len(ups) == len(want)), info='update_precond calls: %d expected %d' % (len(ups), len(want)))
+        if len(ups) == len(want):
+            for k, ((_, pp, xx), (wp, wx)) in enumerate(zip(ups, want)):
+                ex.goal('preconditioner_refresh_parameters', Holds(pp is wp or pp == wp), info='refresh %d sees %r' % (k, pp))
+                ex.goal('preconditioner_refresh_point', Eq(U(xx), U(wx)), info='refresh %d' % k)
+            if useWarmStart and first:
+                ex.goal('first_refresh_precedes_warm_start', Holds(seen.get('ws_trace_len', 0) >= 1 and obj.trace[seen['ws_trace_len'] - 1][0] == 'update_precond'))
+            ex.goal('all_refreshes_precede_the_solver', Holds(seen.get('trace_len_at_solver') == len(obj.trace)))
+        if kind == 'spg_solve':
+            b = seen['bounds']
+            ex.goal('bounds_are_scaled_like_the_unknowns', Eq([U(b[:, 0]), U(b[:, 1])], [U(sc * lo), U(sc * hi)]))
+            ex.goal('bounds_shape', Holds(onp.shape(b) == (n, 2)))
+        if kind == 'al_solve':
+            calls = seen.get('callback_calls', [])
+            ex.goal('callback_reports_new_parameters', Holds(len(calls) >= 1 and all(a[1] is pNew and pp is pNew for a, pp in calls)))
+            ex.goal('sub_solver_receives_sub_callback', Holds(seen.get('solver_callback') is scb))
+        if kind == 'bc_solve':
+            ex.goal('kappa_reset_first', Holds(len(obj.trace) >= 1 and obj.trace[0][0] == 'reset_kappa'))
+            ex.goal('inner_solve_gets_new_parameters', Holds(seen.get('al_p') is pNew and seen.get('al_settings') == ('AL_SETTINGS', 'SUB_SETTINGS')))
+            kw = seen.get('al_kw', {})
+            ex.goal('inner_solve_does_not_warm_start_again', Holds(kw.get('useWarmStart') is False and kw.get('updatePrecond') is False))
+            ex.goal('callbacks_and_sub_solver_forwarded', Holds(kw.get('callback') is cb and kw.get('sub_problem_callback') is scb and kw.get('sub_problem_solver') is solver))
+            sc_calls = seen.get('sub_callback_calls', [])
+            ex.goal('sub_callback_sees_unwarmed_start_and_new_parameters', Holds(len(sc_calls) == 1 and sc_calls[0][1] is pNew and sc_calls[0][0][1] is obj))
+            if len(sc_calls) == 1:
+                ex.goal('sub_callback_point', Eq(U(onp.asarray(sc_calls[0][0][0], dtype=object)), U(start0)))
+        if kind != 'al_solve':
+            ex.goal('caller_start_vector_untouched', Eq(U(x_arg), U(x0)))
+    return fn
+
+
+def _driver_ob(kind):
+    rel, fname = DRIVERS[kind]
+
+    def ob(h):
+        h.encoded('optimism.%s:%s (real source under PX)' % (rel.split('/')[-1][:-3], fname))
+        flags = 'useWarmStart x updatePrecond' + (' x updatePrecondBeforeWarmStart' if kind == 'al_solve' else '')
+        h.bounds('n=2 unknowns; symbolic start, diagonal scaling / inverse scaling vectors (independent symbols), warm-start increment, solver output, solver flag'
+                 + (', bounds' if kind == 'spg_solve' else '') + '; all combinations of ' + flags)
+        h.assume_note('stubs: WarmStart.warm_start_increment returns an arbitrary vector and records objective.p; the inner solver (%s) returns an arbitrary point and flag and records objective.p; '
+                      'parameters are opaque objects' % {'nonlinear_equation_solve': 'solver_algorithm', 'spg_solve': 'bound_constrained_trust_region_minimize',
+                                                         'al_solve': 'sub_problem_solver; constraint/ncp/total_residual report a converged state, max_al_iters=1, first-order update',
+                                                         'bc_solve': 'AlSolver.augmented_lagrange_solve'}[kind])
+        h.outside('what the inner solvers do (C01, C04, C05); aliasing of the start vector inside augmented_lagrange_solve (`x +=` mutates a NumPy argument, not a JAX array)')
+        combos = [(w, u, True) for w in (True, False) for u in (True, False)]
+        if kind == 'al_solve':
+            combos += [(w, u, False) for w in (True, False) for u in (True, False)]
+        for w, u, b in combos:
+            nm = 'driver[warm=%s,precond=%s%s]' % (w, u, '' if kind != 'al_solve' else ',precondBeforeWarm=%s' % b)
+            px.run_px(h, nm, make_step_driver_harness(kind, w, u, b), cap=20,
+                      expect_goals=['new_parameters_installed_before_solve', 'objective_carries_new_parameters_after', 'result_is_unscaled_solver_output',
+                                    'solver_starts_from_scaled_start_plus_increment', 'preconditioner_refresh_count'])
+    ob.__doc__ = ('%s: the warm start is evaluated with the OLD objective.p, objective.p = pNew before the inner solver runs, the solver starts from '
+                  'scaling*x0 (+dx), the result is invScaling * (solver output), the flag is the solver\'s; preconditioner refreshes see (old p, scaled start) '
+                  'then (new p, solver start); all flag combinations' % fname)
+    return ob
+
+
+for _k in DRIVERS:
+    obligation(P, 'O2.driver_order[%s]' % _k, cap=300)(_driver_ob(_k))
+
+# the C01 formulation of the same ordering claim for nonlinear_equation_solve (shared obligation, re-registered here)
+obligation(P, 'O2.driver_parameter_order[c01.O3]', cap=300)(c01.o3)
+
+
+# ------------------------------------------------------------------------------------------ O3: param_index_update
+CH_HEAD = '''
+import sys
+sys.path.insert(0, %(verif)r)
+from vf import core
+core.setup_repo_path()
+import optimism.Objective as _OM
+from optimism.Objective import param_index_update, Params
+_OM.print = lambda *a, **k: None      # printing a symbolic int would realise it (module attribute; the source is untouched)
+'''
+
+CH_FUNCS = {
+    'piu_in_range': '''
+def piu_in_range(p0: int, p1: int, p2: int, p3: int, p4: int, p5: int, index: int, new: int) -> bool:
+    """
+    pre: 0 <= index <= 5
+    post: __return__
+    """
+    p = Params(p0, p1, p2, p3, p4, p5)
+    r = param_index_update(p, index, new)
+    ok = type(r) is Params and len(r) == 6 and r[index] == new
+    for k in range(6):
+        if k != index:
+            ok = ok and r[k] == p[k]
+    return ok and p == Params(p0, p1, p2, p3, p4, p5)
+''',
+    'piu_out_of_range': '''
+def piu_out_of_range(p0: int, p1: int, index: int, new: int) -> bool:
+    """
+    pre: index < 0 or index > 5
+    post: __return__
+    """
+    return param_index_update(Params(p0, p1), index, new) is None
+''',
+}
+
+
+def crosshair_check(h, name, head, funcs, timeout=30):
+    """run `crosshair check` on private wrapper modules (one per function); 'Confirmed over all paths' is the only passing verdict"""
+    import shutil
+    import time
+    if h.replay is not None:
+        return
+    d = tempfile.mkdtemp(prefix='c19_ch_')
+    env = dict(os.environ, JAX_PLATFORMS='cpu', VERIF_REPO=REPO, PYTHONDONTWRITEBYTECODE='1')
+    exe = os.path.join(os.path.dirname(sys.executable), 'crosshair')
+    try:
+        for fn, body in funcs.items():
+            path = os.path.join(d, 'wrap_%s.py' % fn)
+            with open(path, 'w') as f:
+                f.write(head + body)
+            t0 = time.time()
+            r = subprocess.run([exe, 'check', '--report_all', '--per_condition_timeout', str(timeout), path],
+                               capture_output=True, text=True, env=env, timeout=timeout * 4)
+            out = (r.stdout + r.stderr).strip()
+            dt = round(time.time() - t0, 3)
+            qn = '%s/%s.%s' % (h.ob, name, fn)
+            lines = [l for l in out.splitlines() if l.startswith(path)]
+            if len(lines) == 1 and lines[0].endswith('info: Confirmed over all paths.'):
+                h.records.append(dict(query=qn, status='discharged', solver='crosshair(z3)', time_s=dt, attempts=[('crosshair', 'confirmed', dt)], nonvacuous=True,
+                                      detail=lines[0][len(path):]))
+            elif any(' error: ' in l for l in lines):
+                # CrossHair prints a counterexample call: the PX twin of the obligation finds and replays it on the real function
+                h.records.append(dict(query=qn, status='unreproduced', solver='crosshair(z3)', time_s=dt, attempts=[('crosshair', 'refuted', dt)], nonvacuous=True,
+                                      detail='CrossHair counterexample (the PX twin of this obligation carries the replay): ' + ' | '.join(l[len(path):] for l in lines)[-400:]))
+            else:
+                h.records.append(dict(query=qn, status='inconclusive', solver='crosshair(z3)', time_s=dt, attempts=[('crosshair', 'unknown', dt)], nonvacuous=None,
+                                      detail='CrossHair verdict is not "Confirmed over all paths": ' + out[-400:]))
+    finally:
+        shutil.rmtree(d, ignore_errors=True)
+
+
+def make_piu_harness():
+    """PX twin: symbolic slot values and a symbolic index; the real function forks on `index == k`"""
+    def fn(ex):
+        O = _objmod()
+        vals = [ex.int('p%d' % k) for k in range(6)]
+        idx = ex.int('index')
+        new = ex.int('new')
+        p = O.Params(*vals)
+        with contextlib.redirect_stdout(io.StringIO()):
+            r = O.param_index_update(p, idx, new)
+        inr = SymBool(z3.And(px._z(idx) >= 0, px._z(idx) <= 5)) if ex.symbolic else (0 <= idx <= 5)
+        if bool(inr):
+            ex.goal('returns_a_params_tuple', Holds(type(r) is O.Params and len(r) == 6))
+            if type(r) is O.Params:
+                for k in range(6):
+                    hit = U(idx == k) if ex.symbolic else (idx == k)
+                    ex.goal('slot_index_replaced', Eq(U(r[k]), U(new), when=hit), info='slot %d' % k)
+                    ex.goal('other_slots_identical', Eq(U(r[k]), U(vals[k]), when=(z3.Not(hit) if ex.symbolic else not hit)), info='slot %d' % k)
+            ex.goal('input_tuple_untouched', Holds(all(a is b for a, b in zip(p, vals))))
+        else:
+            ex.goal('out_of_range_returns_none', Holds(r is None))
+    return fn
+
+
+@obligation(P, 'O3.param_index_update', cap=300)
+def o3(h):
+    """Objective.param_index_update: slot `index` is replaced by the new value, every other slot is unchanged,
+    the result is a Params 6-tuple, for index 0..5 (out of range: None) — CrossHair on a private wrapper with PEP-316
+    postconditions and a PX twin (symbolic index, z3 decides every path) that carries the replay"""
+    O = _objmod()
+    h.encoded(O.param_index_update)
+    h.bounds('slot values: all integers (independent symbols standing in for arbitrary objects: the function only moves references), index: all integers')
+    h.outside('non-integer index objects')
+    crosshair_check(h, 'crosshair', CH_HEAD % dict(verif=VERIF), CH_FUNCS)
+    px.run_px(h, 'px', make_piu_harness(), cap=20, expect_goals=['slot_index_replaced', 'other_slots_identical', 'out_of_range_returns_none'])
+
+
+# ------------------------------------------------------------------------------------------ O4: ScaledObjective algebra
+MONOS = [(1, 0), (0, 1), (2, 0), (1, 1), (0, 2), (3, 0), (2, 1), (1, 2), (0, 3)]
+
+
+def energy_poly(x, p):
+    """generic cubic polynomial in two unknowns, coefficients in the app_data slot, linear load in the bc slot"""
+    co = p[3]
+    r = -(x @ p[0])
+    for k, (i, j) in enumerate(MONOS):
+        r = r + co[k] * x[0] ** i * x[1] ** j
+    return r
+
+
+class _KD:
+    def __init__(self, d):
+        self.d = d
+
+    def diagonal(self):
+        return self.d
+
+
+def build_scaled(kdiag, x0, load, co, with_precond=True):
+    """the REAL ScaledObjective.__init__ run on tracers: the preconditioner strategy hands out a matrix whose diagonal is
+    the traced `kdiag`; ScaledPrecondStrategy (scipy.sparse) is replaced by a recorder while the constructor runs"""
+    O = _objmod()
+    rec = {}
+
+    class PS:
+        def initialize(self, x, p):
+            rec['init'] = (x, p)
+
+        def precond_at_attempt(self, k):
+            rec['attempt'] = k
+            return _KD(kdiag)
+
+    class SPS:
+        def __init__(self, ps, dofScaling):
+            rec['sps'] = (ps, dofScaling)
+    p = O.Params(load, None, None, co, None, None)
+    ps = PS()
+    saved = O.ScaledPrecondStrategy
+    O.ScaledPrecondStrategy = SPS
+    try:
+        so = O.ScaledObjective(energy_poly, x0, p, ps if with_precond else None)
+    finally:
+        O.ScaledPrecondStrategy = saved
+    so.precond = None          # SparseCholesky needs sksparse; not part of the algebra
+    return so, p, rec, ps
+
+
+def s0(a):
+    return a[()] if hasattr(a, 'shape') and a.shape == () else a
+
+
+@obligation(P, 'O4.scaled_objective_algebra', cap=300)
+def o4(h):
+    """ScaledObjective built by its REAL constructor on a symbolic positive stiffness diagonal K: scaling^2 = K,
+    scaling*invScaling = 1, get_value(x) = f(x), get_residual(x) = invScaling * grad f(x), the scaled Hessian-vector product is
+    invScaling * H(x)(invScaling * v), a stationary point xBar of the scaled objective maps to a stationary point
+    invScaling*xBar of f and back; the wrapped strategy receives invScaling and the unscaled start"""
+    O = _objmod()
+    h.encoded(O.ScaledObjective.__init__, O.ScaledObjective.get_value, O.ScaledObjective.get_residual, O.Objective.__init__, O.Objective.value, O.Objective.gradient,
+              O.Objective.hessian_vec)
+    h.bounds('n=2; f = generic cubic polynomial (9 symbolic coefficients) minus a symbolic linear load; stiffness diagonal K_i > 0, points x, xBar, direction v: all reals')
+    h.assume_note('stub: precondStrategy.precond_at_attempt(0) returns a matrix whose diagonal is the symbolic K; ScaledPrecondStrategy (scipy.sparse) replaced by a recorder during construction',
+                  'oracle for f, grad f, H: jax autodiff of the unscaled energy (the subject here is the change of variables, not autodiff)')
+    h.outside('building ScaledPrecondStrategy / the preconditioner through scipy.sparse; K0 with a non-positive diagonal entry (sqrt undefined / division by zero)')
+    ex = dict(kdiag=onp.array([2.0, 0.5]), x0=onp.array([0.1, -0.3]), load=onp.array([0.3, 0.2]), co=onp.linspace(0.2, 1.0, 9), x=onp.array([0.4, 0.7]),
+              v=onp.array([-0.2, 0.9]))
+    smp = lambda rng: [rng.uniform(0.2, 3.0, size=2), rng.normal(size=2), rng.normal(size=2), rng.normal(size=9), rng.normal(size=2), rng.normal(size=2)]
+
+    def fn(kdiag, x0, load, co, x, v):
+        so, p, rec, ps = build_scaled(kdiag, x0, load, co)
+        g = jax.grad(energy_poly)
+        Hv = lambda y, w: jax.jvp(lambda z: g(z, p), (y,), (w,))[1]
+        xin = so.invScaling * x                     # x plays the role of xBar here
+        return dict(scaling=so.scaling, inv=so.invScaling * jnp.ones(2), val=so.get_value(x), f=energy_poly(x, p), res=so.get_residual(x), g=g(x, p),
+                    hv=so.hessian_vec(so.scaling * x, v), Hv=Hv(x, so.invScaling * v), gbar=so.gradient(x), g_at_unscaled=g(xin, p),
+                    sps_scaling=rec['sps'][1] * jnp.ones(2), init_x=rec['init'][0], init_load=rec['init'][1][0],
+                    p_load=so.p[0], p_co=so.p[3])
+    c = Case(h, fn, ex, sampler=smp, label='ScaledObjective')
+    h.fact('constructor_wiring', True, 'ScaledPrecondStrategy constructed from the given strategy; precond_at_attempt(0) used (checked at trace time below)')
+
+    def spec(i, o):
+        k = i['kdiag']
+        pos = [v_lt(0.0, k[0]), v_lt(0.0, k[1])]
+        sc, inv = o['scaling'], o['inv']
+        at = [Eq([v_mul(sc[a], sc[a]) for a in range(2)], [k[a] for a in range(2)], name='scaling_squared_is_stiffness_diagonal'),
+              Lt([0.0, 0.0], [sc[0], sc[1]], name='scaling_positive'),
+              Eq([v_mul(sc[a], inv[a]) for a in range(2)], [1.0, 1.0], name='scaling_times_invScaling_is_one'),
+              Eq(s0(o['val']), s0(o['f']), name='get_value_is_f'),
+              Eq([o['res'][a] for a in range(2)], [v_mul(inv[a], o['g'][a]) for a in range(2)], name='get_residual_is_invScaling_times_grad_f'),
+              Eq([o['hv'][a] for a in range(2)], [v_mul(inv[a], o['Hv'][a]) for a in range(2)], name='scaled_hessian_vec_is_invS_H_invS'),
+              Eq([o['g_at_unscaled'][a] for a in range(2)], [0.0, 0.0], when=sym.v_and(sym.v_eq(o['gbar'][0], 0.0), sym.v_eq(o['gbar'][1], 0.0)),
+                 name='stationary_xBar_maps_to_stationary_invScaling_xBar'),
+              Eq([o['res'][a] for a in range(2)], [0.0, 0.0], when=sym.v_and(sym.v_eq(o['g'][0], 0.0), sym.v_eq(o['g'][1], 0.0)),
+                 name='stationary_x_gives_zero_scaled_residual'),
+              Eq([o['sps_scaling'][a] for a in range(2)], [inv[a] for a in range(2)], name='wrapped_strategy_receives_invScaling'),
+              Eq([o['init_x'][a] for a in range(2)] + [o['init_load'][a] for a in range(2)], [i['x0'][a] for a in range(2)] + [i['load'][a] for a in range(2)],
+                 name='strategy_initialised_at_unscaled_start_and_given_parameters'),
+              Eq(list(o['p_load']) + list(o['p_co']), list(i['load']) + list(i['co']), name='objective_carries_given_parameters')]
+        return pos, at
+    c.prove('scaled', spec, cap=40)
+
+    # without a preconditioner strategy: the identity scaling
+    def fn1(x0, load, co, x):
+        so, p, rec, ps = build_scaled(None, x0, load, co, with_precond=False)
+        return dict(scaling=so.scaling * jnp.ones(2), inv=so.invScaling * jnp.ones(2), val=so.get_value(x), f=energy_poly(x, p), res=so.get_residual(x),
+                    g=jax.grad(energy_poly)(x, p))
+    c1 = Case(h, fn1, {k: ex[k] for k in ('x0', 'load', 'co', 'x')}, sampler=lambda rng: [rng.normal(size=2), rng.normal(size=2), rng.normal(size=9), rng.normal(size=2)],
+              label='ScaledObjective(no strategy)')
+    c1.prove('unscaled', lambda i, o: ([], [Eq(list(o['scaling']) + list(o['inv']), [1.0] * 4, name='identity_scaling'),
+                                            Eq(s0(o['val']), s0(o['f']), name='get_value_is_f'),
+                                            Eq(list(o['res']), list(o['g']), name='get_residual_is_grad_f')]), cap=20)
+
+
+DESIGNED_NOT_REGISTERED = []
